@@ -50,7 +50,15 @@ pub fn check_all(an: &Analysis<'_>, t: &mut Tally, idx: u64) {
         c10(&mut cx);
         return;
     }
-    crate::pipelines::check_c01(&mut cx);
+    // The stats pipelines are real writers fed with what the real runner emitted;
+    // a panic inside them must not take the monitor down with it.
+    crate::exec::IN_RUN.store(true, std::sync::atomic::Ordering::SeqCst);
+    let r = std::panic::catch_unwind(std::panic::AssertUnwindSafe(|| crate::pipelines::check_c01(&mut cx)));
+    crate::exec::IN_RUN.store(false, std::sync::atomic::Ordering::SeqCst);
+    if let Err(p) = r {
+        let msg = format!("{:?}", crate::evrec::payload_of(&std::sync::Arc::from(p)));
+        cx.viol("C01", "verdict:pipeline-panicked", format!("a stats pipeline panicked on the stream the runner emitted: {msg}"), json!(null));
+    }
     c02(&mut cx);
     c03(&mut cx);
     c04(&mut cx);
